@@ -1,9 +1,804 @@
 package main
 
-// Counterexample replay: render the solver's model as an in-package Go test and run it against the real code.
+// Counterexample replay. The solver's model is turned into concrete Go inputs; an in-package test (injected with
+// `go test -overlay`, nothing is written into /repo) runs the REAL function on them and prints what it observes.
+// The violation is confirmed when
+//   - safety obligation (bounds/nil/div0/cast/panic): the real call panics;
+//   - postcondition: every observed output (results, fields of the receiver/arguments after the call) equals the value the
+//     model predicted for the failing return, i.e. the model is a faithful execution, so the clause the solver evaluated to
+//     false on those values is false on the real code.
+// Anything the generator cannot build (interface-typed inputs that are used, huge allocations) ends as no-failing-input-found.
 
-func tryReplay(id string, o *Obligation, outDir string) (string, bool) {
+import (
+	"bytes"
+	"encoding/json"
+	"fmt"
+	"go/types"
+	"math/big"
+	"os"
+	"os/exec"
+	"path/filepath"
+	"sort"
+	"strconv"
+	"strings"
+
+	"golang.org/x/tools/go/ssa"
+)
+
+type ReplayCtx struct {
+	fv      *FnVerifier
+	post    *State // state at the failing return (post obligations)
+	results []Val
+}
+
+type obs struct {
+	path string // Go expression (inputs: how to build; outputs: what to print)
+	term string
+	t    types.Type
+	val  string // model value (decimal / true / false)
+}
+
+// ---------------------------------------------------------------------------------------------
+// S-expressions
+
+type sx struct {
+	atom string
+	list []*sx
+}
+
+func parseSx(s string) []*sx {
+	var stack [][]*sx
+	cur := []*sx{}
+	i := 0
+	for i < len(s) {
+		c := s[i]
+		switch {
+		case c == '(':
+			stack = append(stack, cur)
+			cur = []*sx{}
+			i++
+		case c == ')':
+			n := &sx{list: cur}
+			if len(stack) == 0 {
+				return cur
+			}
+			cur = stack[len(stack)-1]
+			stack = stack[:len(stack)-1]
+			cur = append(cur, n)
+			i++
+		case c == ' ' || c == '\n' || c == '\t' || c == '\r':
+			i++
+		case c == '|':
+			j := strings.IndexByte(s[i+1:], '|')
+			cur = append(cur, &sx{atom: s[i : i+j+2]})
+			i += j + 2
+		case c == '"':
+			j := strings.IndexByte(s[i+1:], '"')
+			cur = append(cur, &sx{atom: s[i : i+j+2]})
+			i += j + 2
+		default:
+			j := i
+			for j < len(s) && !strings.ContainsRune("() \n\t\r", rune(s[j])) {
+				j++
+			}
+			cur = append(cur, &sx{atom: s[i:j]})
+			i = j
+		}
+	}
+	return cur
+}
+
+func (x *sx) String() string {
+	if x.list == nil {
+		return x.atom
+	}
+	var p []string
+	for _, e := range x.list {
+		p = append(p, e.String())
+	}
+	return "(" + strings.Join(p, " ") + ")"
+}
+
+// scalarValue converts a model value to decimal / true / false; floats to "fbits:<hex>".
+func scalarValue(x *sx) (string, bool) {
+	if x.list == nil {
+		a := x.atom
+		switch {
+		case a == "true" || a == "false":
+			return a, true
+		case strings.HasPrefix(a, "#x"):
+			n, ok := new(big.Int).SetString(a[2:], 16)
+			return n.String(), ok
+		case strings.HasPrefix(a, "#b"):
+			n, ok := new(big.Int).SetString(a[2:], 2)
+			return n.String(), ok
+		default:
+			if _, ok := new(big.Int).SetString(a, 10); ok {
+				return a, true
+			}
+		}
+		return "", false
+	}
+	l := x.list
+	if len(l) == 2 && l[0].atom == "-" {
+		v, ok := scalarValue(l[1])
+		return "-" + v, ok
+	}
+	if len(l) == 3 && l[0].atom == "_" && strings.HasPrefix(l[1].atom, "bv") {
+		return l[1].atom[2:], true
+	}
+	if len(l) == 4 && l[0].atom == "fp" {
+		var bits string
+		for _, p := range l[1:] {
+			if strings.HasPrefix(p.atom, "#b") {
+				bits += p.atom[2:]
+			} else if strings.HasPrefix(p.atom, "#x") {
+				n, _ := new(big.Int).SetString(p.atom[2:], 16)
+				bits += fmt.Sprintf("%0*b", 4*len(p.atom[2:]), n)
+			}
+		}
+		n, _ := new(big.Int).SetString(bits, 2)
+		return "fbits:" + n.String(), true
+	}
+	if len(l) == 4 && l[0].atom == "_" {
+		switch l[1].atom {
+		case "+zero":
+			return "fbits:0", true
+		case "-zero":
+			if l[3].atom == "53" {
+				return "fbits:9223372036854775808", true
+			}
+			return "fbits:2147483648", true
+		case "+oo":
+			if l[3].atom == "53" {
+				return "fbits:9218868437227405312", true
+			}
+		case "NaN":
+			if l[3].atom == "53" {
+				return "fbits:9221120237041090560", true
+			}
+		}
+	}
 	return "", false
 }
 
-func runReplayTest(path string) int { return 0 }
+// getValues appends get-value commands for terms to the obligation's query and returns model values.
+func getValues(q *Query, o *Obligation, extra []string, terms []string, file string) (map[string]string, string) {
+	var b strings.Builder
+	base := q.render(o, false, extra)
+	base = strings.Replace(base, "(set-logic ALL)", "(set-option :produce-models true)\n(set-logic ALL)", 1)
+	b.WriteString(base)
+	for _, t := range terms {
+		b.WriteString("(get-value (" + t + "))\n")
+	}
+	os.WriteFile(file, []byte(b.String()), 0o644)
+	var args []string
+	switch o.Solver {
+	case "cvc5":
+		args = []string{"cvc5", "--produce-models", "--tlimit=20000", file}
+	case "z3":
+		args = []string{"z3", "-T:20", file}
+	default:
+		args = []string{"z3-new", "-T:20", file}
+	}
+	out, _ := exec.Command(args[0], args[1:]...).CombinedOutput()
+	s := string(out)
+	first := strings.TrimSpace(strings.SplitN(s, "\n", 2)[0])
+	if first != "sat" {
+		return nil, first
+	}
+	rest := strings.SplitN(s, "\n", 2)
+	vals := map[string]string{}
+	if len(rest) < 2 {
+		return vals, first
+	}
+	items := parseSx(rest[1])
+	k := 0
+	for _, it := range items {
+		// each item: ((term value))
+		if it.list == nil || len(it.list) != 1 || len(it.list[0].list) != 2 {
+			continue
+		}
+		if k >= len(terms) {
+			break
+		}
+		if v, ok := scalarValue(it.list[0].list[1]); ok {
+			vals[terms[k]] = v
+		}
+		k++
+	}
+	return vals, first
+}
+
+// ---------------------------------------------------------------------------------------------
+
+type replayGen struct {
+	fv     *FnVerifier
+	q      *Query
+	o      *Obligation
+	extra  []string
+	file   string
+	decls  []string
+	vals   map[string]string
+	nvar   int
+	bases  map[string]string // base ref value + elem type -> Go variable of the backing array
+	fail   string
+	imports map[string]bool
+	pkg    *types.Package
+	pre    *State
+}
+
+func (g *replayGen) ask(terms ...string) bool {
+	var need []string
+	for _, t := range terms {
+		if _, ok := g.vals[t]; !ok {
+			need = append(need, t)
+		}
+	}
+	if len(need) == 0 {
+		return true
+	}
+	vs, st := getValues(g.q, g.o, g.extra, need, g.file)
+	if vs == nil {
+		g.fail = "solver did not reproduce the model (" + st + ")"
+		return false
+	}
+	for k, v := range vs {
+		g.vals[k] = v
+	}
+	for _, t := range need {
+		if _, ok := g.vals[t]; !ok {
+			g.fail = "no scalar value for " + t
+			return false
+		}
+	}
+	return true
+}
+
+func (g *replayGen) newVar(prefix string) string {
+	g.nvar++
+	return fmt.Sprintf("%s%d", prefix, g.nvar)
+}
+
+func (g *replayGen) typeStr(t types.Type) string {
+	return types.TypeString(t, func(p *types.Package) string {
+		if p == g.pkg {
+			return ""
+		}
+		g.imports[p.Path()] = true
+		return p.Name()
+	})
+}
+
+func goLit(v string, t types.Type) string {
+	if strings.HasPrefix(v, "fbits:") {
+		bits := strings.TrimPrefix(v, "fbits:")
+		if b, _ := isFloat(t); b == 32 {
+			return "math.Float32frombits(" + bits + ")"
+		}
+		return "math.Float64frombits(" + bits + ")"
+	}
+	if bt, ok := t.Underlying().(*types.Basic); ok && bt.Info()&types.IsInteger != 0 {
+		bits, signed, _ := intInfo(t)
+		n, _ := new(big.Int).SetString(v, 10)
+		if n != nil && signed && n.Cmp(pow2(bits-1)) >= 0 {
+			n.Sub(n, pow2(bits)) // bit-vector value of a signed integer
+			v = n.String()
+		}
+	}
+	return v
+}
+
+const maxReplayLen = 1 << 16
+
+// build returns a Go expression constructing the input value of type t whose SMT term is `term` (entry state).
+func (g *replayGen) build(term string, t types.Type, depth int) (string, bool) {
+	fv := g.fv
+	m := fv.mode
+	if isOpaqueNamed(t) {
+		return "", false
+	}
+	switch u := t.Underlying().(type) {
+	case *types.Basic:
+		switch {
+		case u.Info()&types.IsString != 0:
+			if !g.ask("(strlen " + term + ")") {
+				return "", false
+			}
+			n, _ := strconv.Atoi(g.vals["(strlen "+term+")"])
+			if n > maxReplayLen {
+				g.fail = "model string too long"
+				return "", false
+			}
+			var ts []string
+			for i := 0; i < n; i++ {
+				ts = append(ts, fmt.Sprintf("(select (sarr %s) %s)", term, m.idx(int64(i))))
+			}
+			if !g.ask(ts...) {
+				return "", false
+			}
+			var bs []string
+			for _, x := range ts {
+				bs = append(bs, g.vals[x])
+			}
+			return "string([]byte{" + strings.Join(bs, ",") + "})", true
+		case u.Info()&(types.IsInteger|types.IsBoolean|types.IsFloat) != 0:
+			if !g.ask(term) {
+				return "", false
+			}
+			if u.Info()&types.IsFloat != 0 {
+				g.imports["math"] = true
+			}
+			return g.typeStr(t) + "(" + goLit(g.vals[term], t) + ")", true
+		}
+		return "", false
+	case *types.Slice:
+		if _, ok := u.Elem().Underlying().(*types.Basic); !ok {
+			// slices of non-basic elements: only nil / empty
+			if !g.ask("(slen "+term+")", "(sbase "+term+")") {
+				return "", false
+			}
+			if g.vals["(slen "+term+")"] == "0" {
+				if g.vals["(sbase "+term+")"] == "0" {
+					return "nil", true
+				}
+				return g.typeStr(t) + "{}", true
+			}
+			g.fail = "slice of " + u.Elem().String() + " in the model"
+			return "", false
+		}
+		ts := []string{"(sbase " + term + ")", "(soff " + term + ")", "(slen " + term + ")", "(scap " + term + ")"}
+		if !g.ask(ts...) {
+			return "", false
+		}
+		base, off, ln, cp := g.vals[ts[0]], g.vals[ts[1]], g.vals[ts[2]], g.vals[ts[3]]
+		if base == "0" {
+			return "nil", true
+		}
+		o, _ := strconv.Atoi(off)
+		l, _ := strconv.Atoi(ln)
+		c, _ := strconv.Atoi(cp)
+		if o+c > maxReplayLen || len(off) > 9 || len(cp) > 9 {
+			g.fail = "model slice too large"
+			return "", false
+		}
+		key := base + "/" + typeKey(u.Elem())
+		bv, ok := g.bases[key]
+		if !ok {
+			bv = g.newVar("base")
+			g.bases[key] = bv
+			g.decls = append(g.decls, fmt.Sprintf("%s := make([]%s, %d)", bv, g.typeStr(u.Elem()), maxReplayLen))
+		}
+		// contents of [off, off+cap): whatever the model says (spare capacity matters for aliasing defects)
+		k := fv.elemsKey(u.Elem())
+		h := fv.heapGet(g.pre, k)
+		limit := c
+		if limit > 256 {
+			limit = l
+		}
+		var es []string
+		for i := 0; i < limit; i++ {
+			es = append(es, fmt.Sprintf("(select (select %s (sbase %s)) %s)", h, term, idxAdd(m, "(soff "+term+")", m.idx(int64(i)))))
+		}
+		if !g.ask(es...) {
+			return "", false
+		}
+		for i, e := range es {
+			if g.vals[e] != "0" && g.vals[e] != "false" {
+				g.decls = append(g.decls, fmt.Sprintf("%s[%d] = %s", bv, o+i, goLit(g.vals[e], u.Elem())))
+			}
+		}
+		return fmt.Sprintf("%s[%d:%d:%d]", bv, o, o+l, o+c), true
+	case *types.Pointer:
+		if !g.ask(term) {
+			return "", false
+		}
+		if g.vals[term] == "0" {
+			return "nil", true
+		}
+		if isBigInt(u.Elem()) {
+			bt := "(select " + fv.heapGet(g.pre, "big") + " " + term + ")"
+			if !g.ask(bt) {
+				return "", false
+			}
+			g.imports["math/big"] = true
+			v := g.newVar("big")
+			g.decls = append(g.decls, fmt.Sprintf("%s, _ := new(big.Int).SetString(%q, 10)", v, g.vals[bt]))
+			return v, true
+		}
+		st, ok := u.Elem().Underlying().(*types.Struct)
+		if !ok || depth > 2 {
+			g.fail = "pointer to " + u.Elem().String() + " in the model"
+			return "", false
+		}
+		key := "ptr/" + g.vals[term] + "/" + typeKey(u.Elem())
+		if v, ok := g.bases[key]; ok {
+			return v, true
+		}
+		v := g.newVar("obj")
+		g.bases[key] = v
+		g.decls = append(g.decls, fmt.Sprintf("%s := &%s{}", v, g.typeStr(u.Elem())))
+		named, _ := u.Elem().(*types.Named)
+		for i := 0; i < st.NumFields(); i++ {
+			f := st.Field(i)
+			if !f.Exported() && (named == nil || named.Obj().Pkg() != g.pkg) {
+				continue
+			}
+			if isOpaqueNamed(f.Type()) {
+				continue
+			}
+			fk := fv.fieldKey(u.Elem(), st, i)
+			if used := g.q.declSeen["H."+sanitize(fk)+".e0"]; !used {
+				continue // the function never touches this field
+			}
+			ft := "(select " + fv.heapGet(g.pre, fk) + " " + term + ")"
+			switch f.Type().Underlying().(type) {
+			case *types.Interface, *types.Map, *types.Chan, *types.Signature, *types.Struct, *types.Array:
+				continue // left at the zero value; a use makes the replay diverge (reported as no-failing-input-found)
+			}
+			e, ok := g.build(ft, f.Type(), depth+1)
+			if !ok {
+				if g.fail != "" {
+					return "", false
+				}
+				continue
+			}
+			g.decls = append(g.decls, fmt.Sprintf("%s.%s = %s", v, f.Name(), e))
+		}
+		return v, true
+	case *types.Interface:
+		if !g.ask("(itag " + term + ")") {
+			return "", false
+		}
+		if g.vals["(itag "+term+")"] == "0" {
+			return "nil", true
+		}
+		g.fail = "non-nil interface input " + t.String()
+		return "", false
+	case *types.Struct:
+		name := g.typeStr(t)
+		v := g.newVar("sv")
+		g.decls = append(g.decls, fmt.Sprintf("var %s %s", v, name))
+		named, _ := t.(*types.Named)
+		for i := 0; i < u.NumFields(); i++ {
+			f := u.Field(i)
+			if !f.Exported() && (named == nil || named.Obj().Pkg() != g.pkg) {
+				continue
+			}
+			switch f.Type().Underlying().(type) {
+			case *types.Interface, *types.Map, *types.Chan, *types.Signature, *types.Array:
+				continue
+			}
+			e, ok := g.build("("+fv.fieldAcc(t, u, i)+" "+term+")", f.Type(), depth+1)
+			if !ok {
+				if g.fail != "" {
+					return "", false
+				}
+				continue
+			}
+			g.decls = append(g.decls, fmt.Sprintf("%s.%s = %s", v, f.Name(), e))
+		}
+		return v, true
+	}
+	return "", false
+}
+
+type outObs struct {
+	goExpr string // printed with %v after normalisation
+	term   string
+	kind   string // int, bool, nilness
+}
+
+// observe lists (Go expression, post-state SMT term) pairs for an output of type t.
+func (g *replayGen) observe(goExpr, term string, t types.Type, st *State, depth int, out *[]outObs) {
+	fv := g.fv
+	if isOpaqueNamed(t) {
+		return
+	}
+	switch u := t.Underlying().(type) {
+	case *types.Basic:
+		switch {
+		case u.Info()&types.IsBoolean != 0:
+			*out = append(*out, outObs{goExpr, term, "bool"})
+		case u.Info()&types.IsInteger != 0:
+			*out = append(*out, outObs{goExpr, term, "int"})
+		case u.Info()&types.IsString != 0:
+			*out = append(*out, outObs{"len(" + goExpr + ")", "(strlen " + term + ")", "int"})
+		case u.Info()&types.IsFloat != 0:
+			g.imports["math"] = true
+			if b, _ := isFloat(t); b == 32 {
+				*out = append(*out, outObs{"math.Float32bits(" + goExpr + ")", term, "float"})
+			} else {
+				*out = append(*out, outObs{"math.Float64bits(" + goExpr + ")", term, "float"})
+			}
+		}
+	case *types.Interface:
+		*out = append(*out, outObs{"(" + goExpr + " == nil)", "(= (itag " + term + ") 0)", "bool"})
+	case *types.Slice:
+		*out = append(*out, outObs{"len(" + goExpr + ")", "(slen " + term + ")", "int"})
+	case *types.Pointer:
+		if isBigInt(u.Elem()) {
+			g.imports["math/big"] = true
+			*out = append(*out, outObs{"bigStr(" + goExpr + ")", "(select " + fv.heapGet(st, "big") + " " + term + ")", "bigptr"})
+			return
+		}
+		stt, ok := u.Elem().Underlying().(*types.Struct)
+		if !ok || depth > 1 {
+			return
+		}
+		named, _ := u.Elem().(*types.Named)
+		for i := 0; i < stt.NumFields(); i++ {
+			f := stt.Field(i)
+			if !f.Exported() && (named == nil || named.Obj().Pkg() != g.pkg) {
+				continue
+			}
+			fk := fv.fieldKey(u.Elem(), stt, i)
+			if used := g.q.declSeen["H."+sanitize(fk)+".e0"]; !used {
+				continue
+			}
+			switch f.Type().Underlying().(type) {
+			case *types.Basic, *types.Slice:
+				g.observe(goExpr+"."+f.Name(), "(select "+fv.heapGet(st, fk)+" "+term+")", f.Type(), st, depth+1, out)
+			}
+		}
+	case *types.Struct:
+		named, _ := t.(*types.Named)
+		for i := 0; i < u.NumFields(); i++ {
+			f := u.Field(i)
+			if !f.Exported() && (named == nil || named.Obj().Pkg() != g.pkg) {
+				continue
+			}
+			switch f.Type().Underlying().(type) {
+			case *types.Basic, *types.Slice:
+				g.observe(goExpr+"."+f.Name(), "("+fv.fieldAcc(t, u, i)+" "+term+")", f.Type(), st, depth+1, out)
+			}
+		}
+	}
+}
+
+func tryReplay(id string, o *Obligation, outDir string) (string, bool) {
+	ctx := o.Ctx
+	if ctx == nil || ctx.fv == nil || ctx.fv.fn == nil {
+		return "", false
+	}
+	safety := map[string]bool{"bounds": true, "nil": true, "div0": true, "cast": true, "panic": true}
+	if o.Kind != "post" && !safety[o.Kind] {
+		return "", false
+	}
+	fv := ctx.fv
+	fn := fv.fn
+	g := &replayGen{fv: fv, q: fv.q, o: o, vals: map[string]string{}, bases: map[string]string{}, imports: map[string]bool{"fmt": true, "testing": true},
+		pkg: fn.Pkg.Pkg, pre: fv.entry, file: filepath.Join(outDir, "replay_"+sanitizeFile(o.Name)+".smt2")}
+	// staged search for a small model: bound every slice/string parameter length
+	var lenTerms []string
+	for i, p := range fn.Params {
+		switch p.Type().Underlying().(type) {
+		case *types.Slice:
+			lenTerms = append(lenTerms, "(scap "+fv.params[i].S+")", "(soff "+fv.params[i].S+")")
+		case *types.Basic:
+			if p.Type().Underlying().(*types.Basic).Info()&types.IsString != 0 {
+				lenTerms = append(lenTerms, "(strlen "+fv.params[i].S+")")
+			}
+		}
+	}
+	found := false
+	for _, bound := range []int64{4, 16, 256, 0} {
+		g.extra = nil
+		if bound > 0 {
+			if len(lenTerms) == 0 {
+				continue
+			}
+			for _, lt := range lenTerms {
+				g.extra = append(g.extra, fv.mode.cmp("<=", lt, fv.mode.idx(bound), true))
+			}
+		}
+		g.vals = map[string]string{}
+		if vs, _ := getValues(g.q, o, g.extra, []string{"alloc0"}, g.file); vs != nil {
+			found = true
+			break
+		}
+	}
+	if !found {
+		return "", false
+	}
+	// inputs
+	var args []string
+	for i, p := range fn.Params {
+		e, ok := g.build(fv.params[i].S, p.Type(), 0)
+		if !ok {
+			if g.fail == "" {
+				g.fail = "cannot build input " + p.Name()
+			}
+			return replayNote(o, outDir, g.fail), false
+		}
+		args = append(args, e)
+	}
+	// call expression
+	var call string
+	nres := fn.Signature.Results().Len()
+	if fn.Signature.Recv() != nil {
+		call = fmt.Sprintf("%s.%s(%s)", args[0], fn.Name(), strings.Join(args[1:], ", "))
+	} else {
+		call = fmt.Sprintf("%s(%s)", fn.Name(), strings.Join(args, ", "))
+	}
+	var resNames []string
+	for i := 0; i < nres; i++ {
+		resNames = append(resNames, fmt.Sprintf("res%d", i))
+	}
+	// outputs
+	var outs []outObs
+	if o.Kind == "post" && ctx.post != nil {
+		for i := 0; i < nres && i < len(ctx.results); i++ {
+			g.observe(resNames[i], ctx.results[i].S, fn.Signature.Results().At(i).Type(), ctx.post, 0, &outs)
+		}
+		for i, p := range fn.Params {
+			if _, ok := p.Type().Underlying().(*types.Pointer); ok && args[i] != "nil" {
+				g.observe(args[i], fv.params[i].S, p.Type(), ctx.post, 0, &outs)
+			}
+		}
+		var ts []string
+		for _, ob := range outs {
+			ts = append(ts, ob.term)
+		}
+		if !g.ask(ts...) {
+			return replayNote(o, outDir, g.fail), false
+		}
+	}
+	// render
+	var b bytes.Buffer
+	fmt.Fprintf(&b, "package %s\n\n// Replay of the counterexample for obligation %s (property %s).\n// Generated by govc from the solver model; runs the real code.\n\nimport (\n", fn.Pkg.Pkg.Name(), o.Name, id)
+	var imps []string
+	for p := range g.imports {
+		imps = append(imps, p)
+	}
+	sort.Strings(imps)
+	for _, p := range imps {
+		fmt.Fprintf(&b, "\t%q\n", p)
+	}
+	b.WriteString(")\n\n")
+	if g.imports["math/big"] {
+		b.WriteString("func bigStr(x *big.Int) string {\n\tif x == nil {\n\t\treturn \"nil\"\n\t}\n\treturn x.String()\n}\n\n")
+	}
+	b.WriteString("func TestGovcReplay(t *testing.T) {\n")
+	for _, d := range g.decls {
+		b.WriteString("\t" + d + "\n")
+	}
+	b.WriteString("\tfunc() {\n\t\tdefer func() {\n\t\t\tif r := recover(); r != nil {\n\t\t\t\tfmt.Printf(\"GOVC-PANIC %v\\n\", r)\n\t\t\t}\n\t\t}()\n")
+	if nres > 0 {
+		fmt.Fprintf(&b, "\t\t%s := %s\n", strings.Join(resNames, ", "), call)
+		for _, r := range resNames {
+			fmt.Fprintf(&b, "\t\t_ = %s\n", r)
+		}
+	} else {
+		fmt.Fprintf(&b, "\t\t%s\n", call)
+	}
+	for i, ob := range outs {
+		fmt.Fprintf(&b, "\t\tfmt.Printf(\"GOVC-OBS %d %%v\\n\", %s)\n", i, ob.goExpr)
+	}
+	b.WriteString("\t\tfmt.Println(\"GOVC-RETURNED\")\n\t}()\n}\n")
+	testFile := filepath.Join(outDir, "replay_"+sanitizeFile(o.Name)+"_test.go")
+	// header comment with expectations (used by `govc replay`)
+	var exp []string
+	for i, ob := range outs {
+		exp = append(exp, fmt.Sprintf("%d=%s", i, normModel(g.vals[ob.term], ob.kind)))
+	}
+	pkgRel := strings.TrimPrefix(fn.Pkg.Pkg.Path(), repoModule+"/")
+	hdr := fmt.Sprintf("// govc-replay pkg=%s kind=%s expect=%s\n// clause: %s\n", pkgRel, o.Kind, strings.Join(exp, ","), o.Detail)
+	os.WriteFile(testFile, append([]byte(hdr), b.Bytes()...), 0o644)
+	ok, log := execReplay(testFile)
+	os.WriteFile(strings.TrimSuffix(testFile, "_test.go")+".log", []byte(log), 0o644)
+	if ok {
+		return testFile, true
+	}
+	return replayNote(o, outDir, "the model did not reproduce on the real code (see "+filepath.Base(testFile)+" and its .log)"), false
+}
+
+func normModel(v, kind string) string {
+	if kind == "float" {
+		return strings.TrimPrefix(v, "fbits:")
+	}
+	return v
+}
+
+func replayNote(o *Obligation, outDir, why string) string {
+	p := filepath.Join(outDir, "replay_"+sanitizeFile(o.Name)+".txt")
+	f, err := os.OpenFile(p, os.O_APPEND|os.O_WRONLY, 0o644)
+	if err == nil {
+		fmt.Fprintf(f, "\n--- replay ---\nno failing input produced: %s\n", why)
+		f.Close()
+	}
+	return ""
+}
+
+// execReplay runs a generated replay test against /repo and decides whether the violation reproduced.
+func execReplay(testFile string) (bool, string) {
+	if abs, err := filepath.Abs(testFile); err == nil {
+		testFile = abs
+	}
+	data, err := os.ReadFile(testFile)
+	if err != nil {
+		return false, err.Error()
+	}
+	first := strings.SplitN(string(data), "\n", 2)[0]
+	var pkgRel, kind, expect string
+	for _, f := range strings.Fields(first) {
+		switch {
+		case strings.HasPrefix(f, "pkg="):
+			pkgRel = f[4:]
+		case strings.HasPrefix(f, "kind="):
+			kind = f[5:]
+		case strings.HasPrefix(f, "expect="):
+			expect = f[7:]
+		}
+	}
+	if pkgRel == "" {
+		return false, "not a govc replay file"
+	}
+	pkgDir := filepath.Join(repoDir, pkgRel)
+	dir := filepath.Dir(testFile)
+	ov := map[string]interface{}{"Replace": map[string]string{filepath.Join(pkgDir, "zz_govc_replay_test.go"): testFile}}
+	ovData, _ := json.Marshal(ov)
+	ovFile := strings.TrimSuffix(testFile, "_test.go") + ".overlay.json"
+	os.WriteFile(ovFile, ovData, 0o644)
+	tmp := filepath.Join(dir, "tmp.replay")
+	os.MkdirAll(tmp, 0o755)
+	defer os.RemoveAll(tmp)
+	cmd := exec.Command("go", "test", "-overlay", ovFile, "-vet=off", "-count=1", "-timeout", "60s", "-run", "^TestGovcReplay$", "-v", ".")
+	cmd.Dir = pkgDir
+	cmd.Env = append(os.Environ(), "GOFLAGS=-mod=mod", "GOPROXY=off", "GOSUMDB=off", "GOTOOLCHAIN=local", "TMPDIR="+tmp)
+	out, _ := cmd.CombinedOutput()
+	s := string(out)
+	safety := kind != "post"
+	if safety {
+		return strings.Contains(s, "GOVC-PANIC"), s
+	}
+	if !strings.Contains(s, "GOVC-RETURNED") {
+		return false, s
+	}
+	got := map[string]string{}
+	for _, l := range strings.Split(s, "\n") {
+		if strings.HasPrefix(l, "GOVC-OBS ") {
+			parts := strings.SplitN(strings.TrimPrefix(l, "GOVC-OBS "), " ", 2)
+			if len(parts) == 2 {
+				got[parts[0]] = strings.TrimSpace(parts[1])
+			}
+		}
+	}
+	if expect == "" {
+		return false, s + "\n(no observable output to compare)"
+	}
+	for _, e := range strings.Split(expect, ",") {
+		kv := strings.SplitN(e, "=", 2)
+		if len(kv) != 2 {
+			continue
+		}
+		want := kv[1]
+		g := got[kv[0]]
+		if g != want {
+			// signed values: the model prints bit-vector values unsigned
+			if wn, ok := new(big.Int).SetString(want, 10); ok {
+				if gn, ok2 := new(big.Int).SetString(g, 10); ok2 {
+					d := new(big.Int).Sub(wn, gn)
+					if d.Sign() != 0 && (d.Cmp(pow2(64)) == 0 || d.Cmp(pow2(32)) == 0 || d.Cmp(pow2(16)) == 0 || d.Cmp(pow2(8)) == 0) {
+						continue
+					}
+				}
+			}
+			return false, s + fmt.Sprintf("\nobservation %s: real code gives %q, model predicted %q", kv[0], g, want)
+		}
+	}
+	return true, s
+}
+
+func runReplayTest(path string) int {
+	ok, log := execReplay(path)
+	fmt.Println(log)
+	if ok {
+		fmt.Println("REPRODUCED")
+		return 1
+	}
+	fmt.Println("not reproduced")
+	return 0
+}
+
+var _ = ssa.BuilderMode(0)
